@@ -10,12 +10,20 @@
    PROVED in full for single-inheritance tables of any depth mixing spec and plain classes
    with generated constructors (C09_single_inheritance; hypotheses = grammar side conditions
    [wfc] and [key_guard], decidable: C09_single_inheritance_computable).
-   PARTIAL for two spec parents and for hand-written parent constructors: the executable
-   model and specification cover them and are compared with the implementation on every run;
-   proved for them: C09_post_init_at_most_once_any_hierarchy.  The full statement is FALSE there
-   for the current code in three configurations, each with a _refuted witness below and an
-   open finding: a diamond, the key placeholder handed to a hand-written parent constructor,
-   a plain class giving a default to a bare key. *)
+   PARTIAL:
+   - hand-written parent constructors (single inheritance, any depth): proved under the guard
+     [ctor_guard] = the hand-written constructors sit on proper ancestors of the constructor's
+     class and no key is in force where they are (C09_hand_written_parents_partial).  Missing:
+     keyed classes with hand-written constructors - there the statement is FALSE for the current
+     code (the key placeholder MISSING is handed to the hand-written constructor:
+     C09_placeholder_to_hand_written_refuted, open finding);
+   - two spec parents: the executable model and specification cover them and are compared with
+     the implementation on every run; proved for them: C09_post_init_at_most_once_any_hierarchy.
+     The full statement is FALSE for diamonds (C09_diamond_refuted, open finding); for two
+     unrelated lineages it is neither proved nor refuted (no disagreement found by the check);
+   - [key_guard] excludes one configuration where the statement is FALSE for the current code:
+     a plain class giving a default to a bare key
+     (C09_bare_key_defaulted_by_plain_class_refuted, open finding). *)
 From Coq Require Import List ZArith Bool Arith.
 From SC Require Import Base.Res Init.Model Init.Spec Init.Proofs.
 Import ListNotations.
@@ -31,6 +39,16 @@ Theorem C09_single_inheritance : forall ct c pos kw,
   key_guard (anc ct c) pos kw ->
   out_of (construct cur ct c pos kw) = expected ct c pos kw.
 Proof. exact construct_single_inheritance. Qed.
+
+(* hand-written constructors of the documented shape on proper ancestors: they are called
+   with exactly the keywords for the attributes they own (given or defaulted) *)
+Theorem C09_hand_written_parents_partial : forall ct c pos kw,
+  wf_table ct -> In c (map k_id ct) ->
+  wfc (anc ct c) ->
+  ctor_guard (anc ct c) ->            (* see above; generated_only implies it *)
+  key_guard (anc ct c) pos kw ->
+  out_of (construct cur ct c pos kw) = expected ct c pos kw.
+Proof. exact construct_single_inheritance_hand. Qed.
 
 (* the same with all hypotheses as one computable test (used by the correspondence check to
    count the compared calls that lie inside the theorem) *)
@@ -120,8 +138,9 @@ Definition doc_ct : list cdesc :=
 Example C09_documented_example :
   out_of (construct cur doc_ct 2 None [])
   = Ok (mkout [(1, AInt 101); (2, AInt 100); (A_EXTRA, AList [AInt 100; AInt 10]); (3, AInt 300)] [] [1])
-  /\ out_of (construct cur doc_ct 2 None []) = expected doc_ct 2 None [].
-Proof. vm_compute. split; reflexivity. Qed.
+  /\ out_of (construct cur doc_ct 2 None []) = expected doc_ct 2 None []
+  /\ in_scope doc_ct 2 None [] = true.       (* inside C09_hand_written_parents_partial *)
+Proof. vm_compute. repeat split. Qed.
 
 (* ------------------------------------------------------------------ the code before the fixes *)
 Definition q_with (f : nat) : quirks :=
@@ -244,6 +263,7 @@ Example C09_bare_key_defaulted_by_plain_class_refuted :
 Proof. vm_compute. repeat split. Qed.
 
 Print Assumptions C09_single_inheritance.
+Print Assumptions C09_hand_written_parents_partial.
 Print Assumptions C09_single_inheritance_computable.
 Print Assumptions C09_post_init_once.
 Print Assumptions C09_post_init_at_most_once_any_hierarchy.
